@@ -2,6 +2,7 @@ package c11
 
 import (
 	"context"
+	"errors"
 	"fmt"
 	"net"
 	"os"
@@ -35,6 +36,8 @@ func fam(name string) cli.Family {
 
 var dest = &net.UDPAddr{IP: net.IPv4bcast, Port: 67}
 
+var errScriptedClose = errors.New("scripted error from conn.Close")
+
 type outcome struct {
 	returned   bool
 	at         time.Duration
@@ -47,6 +50,12 @@ type outcome struct {
 	closeAt    time.Duration
 	injected   int
 	matcherNil int
+	// a further complete call on the same client, started right after the first one returned
+	follow       bool
+	followStart  time.Duration
+	followAt     time.Duration
+	followErr    error
+	followGotMsg bool
 }
 
 type timed struct {
@@ -98,7 +107,7 @@ func script(sc scenario, f cli.Family, budget time.Duration) []timed {
 	switch sc.Event {
 	case "cancel":
 		add(sc.TC, "cancel")
-	case "close", "close2":
+	case "close", "close2", "close-err":
 		add(sc.TC, "close")
 	}
 	sort.SliceStable(ev, func(i, j int) bool { return ev[i].at < ev[j].at })
@@ -110,6 +119,10 @@ func run(t *testing.T, sc scenario) (out outcome) {
 	budget := sc.T * time.Duration((int64(1)<<uint(sc.N))-1)
 	synctest.Test(t, func(t *testing.T) {
 		conn := sconn.New(0)
+		if sc.Event == "close-err" {
+			// the connection reports an error from Close (e.g. its owner closed it first): the client is closed all the same
+			conn.CloseErr = errScriptedClose
+		}
 		c, err := f.NewCfg(conn, sc.T, sc.N, sc.Cfg)
 		if err != nil {
 			t.Fatal(err)
@@ -157,6 +170,12 @@ func run(t *testing.T, sc scenario) (out outcome) {
 			cc()
 			if !conn.Closed() {
 				_, _, out.reuseErr = c.SendAndRead(cctx, dest, req, match)
+			}
+			if !conn.Closed() {
+				out.follow = true
+				out.followStart = time.Since(start)
+				_, out.followGotMsg, out.followErr = c.SendAndRead(context.Background(), dest, req, match)
+				out.followAt = time.Since(start)
 			}
 		}()
 		synctest.Wait()
@@ -249,7 +268,7 @@ func judge(r *mon.Rec, t *testing.T, sc scenario) {
 		if sc.TC < e.at {
 			e = exp{sc.TC, "ctx"}
 		}
-	case "close", "close2":
+	case "close", "close2", "close-err":
 		if sc.TC < e.at {
 			e = exp{sc.TC, "closed"}
 		}
@@ -300,6 +319,34 @@ func judge(r *mon.Rec, t *testing.T, sc scenario) {
 		bad("xid-not-reusable", "a call with the same transaction id immediately after the return got %v", o.reuseErr)
 		return
 	}
+	if sc.Event == "close-err" && o.closeErr == errScriptedClose {
+		o.closeErr = nil // Close may pass on what the connection reported
+	}
+	if o.follow {
+		// the follow-up call starts when the first one has returned and is a call like any other: it ends with the
+		// acceptable response if that is still to come, with the no-response error when the client is closed, and
+		// otherwise exactly one retry budget after its start
+		fe := exp{o.followStart + budget, "noresp"}
+		if hasAccept && sc.TA > o.followStart && sc.TA < fe.at {
+			fe = exp{sc.TA, "response"}
+		}
+		if (sc.Event == "close" || sc.Event == "close2" || sc.Event == "close-err") && sc.TC > o.followStart && sc.TC < fe.at {
+			fe = exp{sc.TC, "closed"}
+		}
+		if o.followStart != o.at {
+			bad("followup-start", "follow-up call started at %v, the first call returned at %v", o.followStart, o.at)
+			return
+		}
+		if o.followAt != fe.at {
+			bad("followup-return:"+fe.what, "a second call on the same client, started at %v, returned at %v with err=%v; expected %s at %v (budget %v)", o.followStart, o.followAt, o.followErr, fe.what, fe.at, budget)
+			return
+		}
+		if fe.what == "response" && (o.followErr != nil || !o.followGotMsg) || fe.what != "response" && (!f.IsNoResponse(o.followErr) || o.followGotMsg) {
+			bad("followup-result:"+fe.what, "a second call on the same client returned err=%v msg=%v, expected %s", o.followErr, o.followGotMsg, fe.what)
+			return
+		}
+		r.Count("followup_calls_checked", 1)
+	}
 	if o.closeErr != nil || o.close2Err != nil {
 		bad("close-result", "Close returned %v, second Close %v", o.closeErr, o.close2Err)
 		return
@@ -343,7 +390,7 @@ func grid(quick bool) []scenario {
 						if ta >= B {
 							continue
 						}
-						for _, ev := range []string{"none", "cancel", "deadline", "close", "close2"} {
+						for _, ev := range []string{"none", "cancel", "deadline", "close", "close2", "close-err"} {
 							tcs := []time.Duration{-1}
 							if ev != "none" {
 								tcs = instants
